@@ -257,6 +257,12 @@ def _check_node(node, st, fl):
         r = St(listy(t), st.empty, st.after_take)
         r.own = True
         return r
+    if op == 'sched_tag':
+        return st.copy(t='any')
+    if op == 'assert_1' and node.get('same_key') is not None:
+        if not getattr(fl, 'same_key_ok', False) or node['same_key'] not in F.KEYS:
+            raise Invalid('same-key assertion outside a split')
+        return st.copy()
     if op in ('identity', 'do_action', 'assert_', 'assert_1'):
         if node.get('pred') is not None and (op != 'assert_' or node['pred'] not in F.ASSERT_PREDS):
             raise Invalid('assert predicate')
@@ -339,7 +345,7 @@ def _check_node(node, st, fl):
             for k in ('active', 'inactive'):
                 if node.get(k) is not None and node[k] < 0:
                     raise Invalid('time-outs must not be negative')
-            if node.get('dt') not in (None, False, True, 'seconds', 'hours', 'days', 'np_int', 'np_float', 'np_dt64'):
+            if node.get('dt') not in (None, False, True, 'seconds', 'hours', 'days', 'np_int', 'np_uint', 'np_float', 'np_dt64'):
                 raise Invalid('time unit')
             # a closing item that is not included, or a zero time-out (the first item of a key expires the window it has just opened), leave empty windows
             inner_empty = bool(node.get('closing')) or node.get('active') == 0 or node.get('inactive') == 0
@@ -349,7 +355,15 @@ def _check_node(node, st, fl):
                                          or (op == 'group_by' and F.KEYS[key][1] == t + '_impure')):
                 raise Invalid('window key type')
             inner_empty = False
-        out = check_pipeline(node['inner'], St(t, inner_empty, False), fl)
+        # assert_1 with a pair-sensitive predicate ("both items have the same split key"): it holds by construction for the items of
+        # one segment, so it is allowed as the first operator inside split(K) with a pure key K only
+        pure = op == 'split' and F.KEYS[node['key']][1] == t and node['key'] not in ('rv_obj',)
+        for n2 in node['inner'][1:]:
+            if n2.get('same_key') is not None:
+                raise Invalid('same-key assertion must come first inside its split')
+        if node['inner'] and node['inner'][0].get('same_key') is not None and not (pure and node['inner'][0]['same_key'] == node['key']):
+            raise Invalid('same-key assertion needs the enclosing split with that key')
+        out = check_pipeline(node['inner'], St(t, inner_empty, False), fl.sub(same_key_ok=True))
         return St(out.t, st.empty or out.empty, st.after_take, out.aliased)
     raise Invalid('unknown operator %r' % (op,))
 
@@ -571,6 +585,9 @@ class Gen(object):
                 if r.random() < 0.06 and node['key'] not in ('rr3', 'cnt3'):
                     node['ff'] = True
                 ist = St(t, False, False)
+                if op == 'split' and F.KEYS[node['key']][1] == t and node['key'] != 'rv_obj' and r.random() < 0.15:
+                    node['inner'] = [{'op': 'assert_1', 'same_key': node['key']}] + self.pipeline(ist, fl, nest - 1, r.choice([1, 1, 2, 2]))
+                    return [node]
             node['inner'] = self.pipeline(ist, fl, nest - 1, r.choice([1, 1, 2, 2, 3]))
             return [node]
         return []
@@ -663,6 +680,19 @@ def walk(nodes, path='P'):
 # building the real pipeline
 # ---------------------------------------------------------------------------
 
+def _the_fault(ctx, site, k, n):
+    """The exception a failing user function raises for record (k, n): a fresh object of the class the fault mode selects, or -
+    mode 'shared' - the very same object for every failing call of the run (a module-level sentinel error, the stored
+    exception of a failed Future)."""
+    mode = ctx.extra.get('falsy_faults')
+    if mode == 'shared':
+        shared = ctx.extra.get('shared_exc')
+        if shared is None:
+            shared = ctx.extra['shared_exc'] = fault_class(False, 0, 0)(site, 'shared')
+        return shared
+    return fault_class(mode, k, n)(site, k, n)
+
+
 def _faulty(ctx, site, fn, item_arg):
     """Wrap a user function: raise InjectedFault when the fault plan names the
     (party, ordinal) of the record being processed at this site."""
@@ -675,7 +705,7 @@ def _faulty(ctx, site, fn, item_arg):
         r = args[item_arg]
         if type(r) is F.Rec and (r.k, r.n) in plan:
             ctx.fired[site] = ctx.fired.get(site, 0) + 1
-            raise fault_class(ctx.extra.get('falsy_faults'), r.k, r.n)(site, r.k, r.n)
+            raise _the_fault(ctx, site, r.k, r.n)
         return fn(*args)
     return wrapped
 
@@ -725,7 +755,7 @@ def build_node(node, ctx, mode, path, i):
             def fstar(k, n, v, t, c):
                 if (k, n) in plan:
                     ctx.fired[site] = ctx.fired.get(site, 0) + 1
-                    raise fault_class(ctx.extra.get('falsy_faults'), k, n)(site, k, n)
+                    raise _the_fault(ctx, site, k, n)
                 return star(k, n, v, t, c)
             return rs.ops.starmap(fstar)
         return rs.ops.starmap(F.STARS[node['fn']][0])
@@ -773,6 +803,9 @@ def build_node(node, ctx, mode, path, i):
         return rs.data.fill_none(node['value'])
     if op == 'batch':
         return rs.data.batch(_n(node, 'n'))
+    if op == 'sched_tag':
+        from .core import sched_tag
+        return sched_tag(ctx, mode)
     if op == 'identity':
         return rs.ops.identity()
     if op == 'do_action':
@@ -780,6 +813,8 @@ def build_node(node, ctx, mode, path, i):
     if op == 'assert_':
         return rs.ops.assert_(F.ASSERT_PREDS[node['pred']] if node.get('pred') else F.always_true, name='sim')
     if op == 'assert_1':
+        if node.get('same_key') is not None:
+            return rs.ops.assert_1(F.same_key_pred(node['same_key']), name='same-key')
         return rs.ops.assert_1(F.PRED2['t2'], name='sim')
     if op == 'progress':
         return rs.ops.progress('sim', node['threshold'], measure_throughput=bool(node.get('mt', True)))
@@ -894,7 +929,7 @@ def time_mapper(node):
     dt = node.get('dt')
     if not dt:
         return F.time_of
-    return {'hours': F.time_of_hours, 'days': F.time_of_days, 'np_int': F.time_of_np_int, 'np_float': F.time_of_np_float,
+    return {'hours': F.time_of_hours, 'days': F.time_of_days, 'np_int': F.time_of_np_int, 'np_uint': F.time_of_np_uint, 'np_float': F.time_of_np_float,
             'np_dt64': F.time_of_np_dt64}.get(dt, F.time_of_dt)
 
 
@@ -907,6 +942,9 @@ def timeout(node, k):
         from datetime import timedelta
         if dt in ('np_int', 'np_float'):
             return v
+        if dt == 'np_uint':
+            import numpy
+            return numpy.uint64(v)
         if dt == 'np_dt64':
             import numpy
             return numpy.timedelta64(int(v), 's')
